@@ -3,6 +3,14 @@
 import json,glob,os
 R='/verif/seeded'
 notes={
+'C01-m3':"round 2: caught",
+'C02-m3':"round 2: caught",
+'C03-m3':"round 2: caught after wgen got uniform members that are (nested) arrays of matrices",
+'C04-m3':"round 2: caught after the C04-1 exclusion was narrowed to scalar-condition selects (it had switched every select off for MSL)",
+'C05-m3':"round 2: caught after wgen got a ptr<workgroup> helper for the workgroup slot write",
+'C07-m3':"round 2: caught",
+'C13-m3':"round 2: caught",
+'C17-m3':"round 2: caught after C17 got an oracle for the HLSL prologue that rebuilds the WGSL arguments from the generated input struct",
 'C01-m1':"missed by the first quick runs (the thorough tier caught it in 8 min); wgen now observes block-local variables at block end and emits a loop-local accumulator idiom; caught at seed 1 since",
 'C02-m1':"missed at first: no generated helper was reachable only from a continuing block; wgen now emits step helpers called only from continuing / for-update that also own a private variable",
 'C02-m2':"missed at first: non-square transpose was switched off by open finding C08-10; that defect was repaired in /repo (fix 925d909) and the construct is generated again",
@@ -33,7 +41,7 @@ if os.path.exists(p):
         if len(a)>=3: res[a[0]]=(a[2], a[3].strip() if len(a)>3 else '')
 out=["# Independently written changes that break a property (seeded mutants)","",
 "Each directory holds `patch.diff` (apply with `git -C /repo apply`), the author's demonstration `demo_test.go`, its `README.md` and `meta.json`.",
-"All 38 were confirmed in a scratch worktree (suite passes with the change, demonstration fails with it and passes without it) before being kept.",
+"All 46 (38 in round 1, two per property; 8 in round 2) were confirmed in a scratch worktree (suite passes with the change, demonstration fails with it and passes without it) before being kept.",
 "`tools/mutants_all.sh` re-runs every change against its property's quick check at seeds 1 and 2 (results: `RESULTS.txt`); `tools/mutant.sh` runs one.","",
 "| change | property | what it needs | quick check (seeds 1,2) | notes |","|---|---|---|---|---|"]
 c=m=0
